@@ -2,6 +2,7 @@
 from collections import Counter
 from tools.vlib import *
 from checks.formlib import cs
+from checks import formlib
 
 HEADER = """From Coq Require Import ZArith NArith List Bool String.
 From CE Require Import Str Comp ESpec ESpecCheck.
@@ -72,7 +73,33 @@ def run(run, args):
     run.oblige("correspondence: model = implementation (parse outcome and all 8 reads) on every string; rendering on every pair", not res[0] and not pres[0],
                "%d strings, %d pairs differ" % (len(res[0]), len(pres[0])))
     run.oblige("specification holds on every implementation outcome", not res[1] and not pres[1], "")
+    # the same verdicts by the extracted evaluator over every longer string; cross-checked against vm_compute on the short ones
+    ok, log = formlib.build_extracted()
+    run.oblige("extracted evaluator builds (Extraction of ESpecCheck verdict, ExtrOcamlBasic only)", ok, log[-400:] if not ok else "")
+    if not ok:
+        violation(run, {"broken": "extraction of the element-specification model", "detail": log}, nofail=True)
+    top = 5 if run.tier == "quick" else 6
+    jobs = [(0, 3)] + [(k, n) for n in range(4, top + 1) for k in range(1, 20)]
+    total, xtie, xholds, _, xerr = formlib.extracted_sweep(jobs, sub="espec")
+    run.oblige("extracted sweep ran", not xerr, xerr)
+    if xerr:
+        violation(run, {"broken": "extracted sweep", "detail": xerr}, nofail=True)
+    vm_tie = {by_id[i]["s"] for i in res[0] if by_id[i]["mode"] == "exh" and len(by_id[i]["s"]) <= 3}
+    vm_holds = {by_id[i]["s"] for i in res[1] if by_id[i]["mode"] == "exh" and len(by_id[i]["s"]) <= 3}
+    ex_tie = {r["s"] for r in xtie if len(r["s"]) <= 3}
+    ex_holds = {r["s"] for r in xholds if len(r["s"]) <= 3}
+    same = vm_tie == ex_tie and vm_holds == ex_holds
+    run.oblige("extracted evaluator and vm_compute give the same verdicts on every string of length <= 3", same,
+               "tie %d/%d holds %d/%d" % (len(vm_tie), len(ex_tie), len(vm_holds), len(ex_holds)))
+    run.cov["extracted_sweep"] = {"strings": total, "max_length_exhaustive": top, "tie_mismatches": len(xtie), "spec_failures": len(xholds), "shards": len(jobs)}
+    run.cov["rule"] += "; additionally EVERY string of length <= %d over that alphabet (%d strings) judged by the extracted evaluator" % (top, total)
+    run.oblige("specification holds on every implementation outcome of the extracted sweep", not xholds, "%d fail" % len(xholds))
+    run.oblige("correspondence on the extracted sweep", not xtie, "%d differ" % len(xtie))
     broken = standard_proof_obligations(run, "C16", THEOREMS) if THEOREMS else []
+    if xholds:
+        violation(run, {"failing_input": xholds[0], "composition": comp, "found_by": "extracted exhaustive sweep",
+                        "what": "a parse panicked or accepted text that is not `symbol` / `symbol[isotope the element has]`, or a string-keyed read "
+                                "panicked or returned something other than the denoted entry's count", "all_failing": [h["s"] for h in xholds[:40]]})
     if errors:
         violation(run, {"broken": "case file does not evaluate", "detail": errors[0][1]}, nofail=True)
     if pres[1]:
@@ -83,6 +110,10 @@ def run(run, args):
                                 "panicked or returned something other than the denoted entry's count", "all_failing_ids": res[1][:40]})
     if bool(pres[2]) and pres[2][0] != len(pairs):
         violation(run, {"broken": "pair enumeration differs between table model and runtime table"}, nofail=True)
+    if not same:
+        violation(run, {"broken": "extracted evaluator disagrees with vm_compute", "tie": sorted(vm_tie ^ ex_tie)[:20], "holds": sorted(vm_holds ^ ex_holds)[:20]}, nofail=True)
+    if xtie:
+        violation(run, {"broken": "correspondence model/implementation (extracted sweep)", "tie_breaking_case": xtie[0], "all": [t["s"] for t in xtie[:40]]}, nofail=True)
     if res[0] or pres[0]:
         violation(run, {"broken": "correspondence model/implementation", "tie_breaking_case": by_id[res[0][0]] if res[0] else pairs[pres[0][0]]}, nofail=True)
     if broken:
